@@ -80,9 +80,7 @@ def run(tier, seed):
         if any(s[i] == s[i + 1] for i in range(len(s) - 1)) and any(c not in keychars for c in s) and any(len(k) > 1 and k in s for k, _ in table):
             nontriv += 1
     for k, v in table:
-        if tv[k] != v:
-            continue        # a later duplicate key can never be reached by assoc
-        o = r2h(k)
+        o = r2h(k)        # every listed entry, also one shadowed by an earlier entry with the same spelling
         if o != v:
             res.violation(f"table spelling {k!r} yields {o!r} instead of {v!r}", {"kind": "typeable", "key": k, "want": v, "got": o})
     # katakana
